@@ -36,7 +36,7 @@ func TestC06Progress(t *testing.T) {
 		nrand = 1500
 	}
 	for i := 0; i < nrand; i++ {
-		n := []uint8{1, 2, 3, 20}[r.Intn(4)]
+		n := []uint8{1, 2, 3, 20, 254, 200}[r.Intn(6)]
 		static := []time.Duration{time.Second, 0, 2 * time.Second}[r.Intn(3)]
 		lat := time.Duration(5+r.Intn(150)) * time.Millisecond
 		ka := r.Intn(2) == 0
@@ -44,6 +44,10 @@ func TestC06Progress(t *testing.T) {
 		pDrop := []float64{0.1, 0.3, 0.5}[r.Intn(3)]
 		dec, _ := randomFaults(int64(60000+i), pDrop, 0.15, 800*time.Millisecond, until)
 		msgs := [2]int{3 + r.Intn(3*int(n)+4), r.Intn(2) * (1 + r.Intn(6))}
+		if n > 20 {
+			// large windows: single messages and bursts of every size class
+			msgs = [2]int{[]int{1, 2, 5, 55, 60, 300}[r.Intn(6)], r.Intn(2) * (1 + r.Intn(3))}
+		}
 		cfg := gbnrun.Config{N: n, Static: static, Latency: lat, Decide: dec, Msgs: msgs}
 		if ka {
 			cfg.Ping = [2]time.Duration{7 * time.Second, 5 * time.Second}
@@ -99,25 +103,74 @@ func TestC06Progress(t *testing.T) {
 			}
 		}
 	}
+	for _, n := range []uint8{254, 200, 128} {
+		for _, burst := range []int{1, 5, 55, 56, 127} {
+			burst, n := burst, n
+			for _, which := range []int{1, burst} { // first or last packet of the burst
+				which := which
+				dropped := false
+				dec := func(from string, idx int, pkt []byte, now time.Duration) vnet.Fate {
+					if !dropped && from == "c" && len(pkt) > 4 && pkt[0] == gbn.DATA &&
+						pkt[3] != gbn.TRUE && gbnrun.PayloadID(pkt[4:]) == which {
+						dropped = true
+						return vnet.Fate{Copies: 0}
+					}
+					return vnet.Fate{Copies: 1}
+				}
+				cfg := gbnrun.Config{N: n, Static: time.Second, Latency: 20 * time.Millisecond,
+					Decide: dec, Msgs: [2]int{burst, 0}}
+				scens = append(scens, scen{map[string]any{"kind": "tailloss", "n": int(n),
+					"burst": burst, "lost": which, "ka": false, "staticMs": 1000, "latMs": 20},
+					cfg, 0, time.Second, false})
+			}
+		}
+	}
 	for si, sc := range scens {
 		sc := sc
 		noteCurrent(dir, sc.desc)
-		bound := 25*sc.base + 15*time.Second
-		quiet := 12 * sc.base
 		cfg := sc.cfg
-		cfg.Horizon = sc.until + bound + 5*time.Second
+		// the horizon leaves room for the paced senders to finish
+		var pace time.Duration
+		if cfg.Gap != nil {
+			for ei, ep := range []string{"c", "s"} {
+				var sum time.Duration
+				for id := 1; id <= cfg.Msgs[ei]; id++ {
+					sum += cfg.Gap(ep, id)
+				}
+				if sum > pace {
+					pace = sum
+				}
+			}
+		}
+		cfg.Horizon = sc.until + pace + 25*sc.base + 20*time.Second
+		// The time bounds of the observer scale with the resend timeout in
+		// force once the link is reliable: with adaptive timeouts that is
+		// the boosted value the fault period left behind (gbn/
+		// timeout_manager.go boosts it on every resend until the next
+		// dynamic update), so it is measured at the end of the fault
+		// period.  bound = 25*base + 15 s, quiet = 12*base, settle = 22*base
+		// are computed from it by Trace_Progress.tla.
+		base := sc.base
+		faultsOver := make(chan struct{})
 		cfg.OnReady = func(run *gbnrun.Run) {
-			run.Rec.Emit("pgCfg", "keepalive", b2i(sc.ka), "boundMs", ms(bound), "quietMs", ms(quiet))
+			run.Rec.Emit("pgCfg", "keepalive", b2i(sc.ka))
 			if d := sc.until - run.Net.Since(); d > 0 {
 				time.Sleep(d)
 			}
 			time.Sleep(time.Millisecond)
-			run.Rec.Emit("faultEnd")
+			for _, c := range []*gbn.GoBackNConn{run.Client, run.Server} {
+				if rto := c.VerifTimeoutManager().GetResendTimeout(); rto > base {
+					base = rto
+				}
+			}
+			run.Rec.Emit("faultEnd", "baseMs", ms(base))
+			close(faultsOver)
 		}
 		cfg.CloseScript = func(run *gbnrun.Run) {
 			// let outstanding acknowledgements and a last resend round settle,
 			// then observe the quiet window
-			time.Sleep(10*sc.base + quiet + time.Second)
+			<-faultsOver
+			time.Sleep(22*base + time.Second)
 			synctest.Wait()
 			_, _, sc0 := run.Client.VerifQueueState()
 			_, _, ss0 := run.Server.VerifQueueState()
